@@ -568,12 +568,20 @@ def main(tier, seed):
     by_sig = {}
     for f in fails:
         by_sig.setdefault(f["sig"], []).append(f)
+    reported = 0
     for sig in sorted(by_sig):
         fs = sorted(by_sig[sig], key=lambda f: len(f["text"]))
         k = findings.match(PROP, sig)
         if k:
             ev.known_hit(k["id"], len(fs))
             continue
+        if reported >= 12:
+            # enough to act on: the remaining signatures are counted, not minimised
+            ev.violations += 1
+            ev.bump("violations-not-minimised")
+            rc = max(rc, 1)
+            continue
+        reported += 1
         f = fs[0]
         if f["kind"] in ("fault", "switch") and f["text"]:
             _p0, seen0 = reoracle(f, True)
